@@ -37,6 +37,14 @@ def step (s : St) : List String → St × String
     match call m s.sim with
     | .ok s' => ({ s with sim := s' }, reply "ok" s.sim s')
     | .error (f, s') => ({ s with sim := s' }, reply ("err:" ++ failName f) s.sim s')
+  | ["ctx", "isetup"] =>
+    -- `InteractiveContext.setup()`: `super().setup()` then `self.initialize_simulants()`
+    match call "setup" s.sim with
+    | .error (f, s') => ({ s with sim := s' }, reply ("err:" ++ failName f) s.sim s')
+    | .ok s1 =>
+      match call "initialize_simulants" s1 with
+      | .ok s' => ({ s with sim := s' }, reply "ok" s.sim s')
+      | .error (f, s') => ({ s with sim := s' }, reply ("err:" ++ failName f) s.sim s')
   | ["ctx", "fail", e] =>
     let s' := { s.sim with ctl := { s.sim.ctl with failOn := e } }
     ({ s with sim := s' }, reply "ok" s.sim s')
